@@ -241,6 +241,24 @@ func runC07(p *core.Prog, r *core.Report) {
 		if n == 0 {
 			r.Fail("C07-R2", "PushTask enqueue select", p.FuncPos(t.Push), "no select with an enqueue arm found")
 		}
+		// the context's error is what the context says it is: PushTask never names context.Canceled / DeadlineExceeded
+		// itself (a deadline that has passed does not mean the context ended by it: it may have been cancelled before)
+		{
+			var named []string
+			for _, ret := range sx.Returns(t.Push) {
+				if len(ret.Results) == 0 {
+					continue
+				}
+				for _, lf := range leaves(ret.Results[len(ret.Results)-1]) {
+					if ld, ok := lf.(*ssa.UnOp); ok && ld.Op == token.MUL {
+						if g, ok := ld.X.(*ssa.Global); ok && g.Pkg != nil && g.Pkg.Pkg.Path() == "context" {
+							named = append(named, "context."+g.Name()+" at "+p.Pos(ret.Pos()))
+						}
+					}
+				}
+			}
+			r.Check(len(named) == 0, "C07-R2", "PushTask reports the context's own error", p.FuncPos(t.Push), "no return names a context error constant; the error comes from ctx.Err()", "PushTask returns "+strings.Join(uniq(named), ", ")+" decided by itself instead of ctx.Err(): on a context with a deadline that was cancelled earlier the caller is told DeadlineExceeded although the context's error is Canceled")
+		}
 	}
 
 	// ---- R3
